@@ -253,7 +253,7 @@ class Interp(Engine):
             return VNative(getattr(base.s, attr))
         if isinstance(base, VInt) and attr in ("real",):
             return base
-        if isinstance(base, (VInt, VFloat)) and attr in ("astype", "is_integer", "item"):
+        if isinstance(base, (VInt, VFloat)) and attr in ("astype", "is_integer", "item", "bit_length"):
             return VBound(base, "num." + attr)
         raise Unsupported("attribute %r on %r" % (attr, base))
 
@@ -651,17 +651,34 @@ class Interp(Engine):
         kwargs = {kw.arg: self.ev(kw.value) for kw in node.keywords}
         return self.call(VNative(getattr(builtins, name)), [lst] + extra, kwargs, node)
 
+    def snapshot_lists(self):
+        out = {}
+        for k, v in self.lists.items():
+            out[k] = ["conc", list(v[1])] if v[0] == "conc" else ["sym", v[1], list(v[2]), v[3]]
+        return out
+
     def eval_old(self, node):
+        """old(e): e evaluated in the entry state. A list result is returned as a snapshot copy."""
         saved_heap, saved_lists = self.heap, self.lists
         self.heap = dict(self.heap0)
-        self.lists = {k: list(v) for k, v in self.lists0.items()}
+        self.lists = {k: (["conc", list(v[1])] if v[0] == "conc" else ["sym", v[1], list(v[2]), v[3]]) for k, v in self.lists0.items()}
         saved_env = self.frames[-1].env
         self.frames[-1].env = dict(self.env0)
+        snap = None
         try:
-            return self.ev(node)
+            r = self.ev(node)
+            r = self.force(r) if isinstance(r, VOpt) else r
+            if isinstance(r, VList):
+                st = self._lst(r)
+                snap = ["conc", list(st[1])] if st[0] == "conc" else ["sym", st[1], list(st[2]), st[3]]
         finally:
             self.heap, self.lists = saved_heap, saved_lists
             self.frames[-1].env = saved_env
+        if snap is not None:
+            loc = self.new_loc()
+            self.lists[loc] = snap
+            return VList(loc)
+        return r
 
     def call(self, f, args, kwargs, node=None):
         f = self.force(f)
@@ -808,6 +825,20 @@ class Interp(Engine):
             # clauses of the callee are evaluated with the callee's bindings
             self.contract = c
             try:
+                # declared parameter types are part of the precondition: ranges must hold for the actual arguments
+                self.contract = saved_contract
+                self.in_clause = saved_clause
+                vt = None
+                for vname, cand in c.variants.items():
+                    vt = cand
+                    break
+                for pname, pT in (vt or {}).items():
+                    if pname in env:
+                        cond = self.conforms(env[pname], pT)
+                        if cond is not None:
+                            self.prove(cond, "call_pre", "%s.%s within declared type %r" % (c.key, pname, pT), line)
+                self.in_clause = True
+                self.contract = c
                 for i, cl in enumerate(c.requires):
                     g = self.truth(self.eval_clause(cl))
                     self.contract = saved_contract
@@ -818,7 +849,7 @@ class Interp(Engine):
                 # snapshot for old()
                 self.env0 = dict(env)
                 self.heap0 = dict(self.heap)
-                self.lists0 = {k: list(v) for k, v in self.lists.items()}
+                self.lists0 = self.snapshot_lists()
                 # exceptional behaviour
                 raised_conds = []
                 for exc_cls, when in c.raises:
@@ -837,7 +868,8 @@ class Interp(Engine):
                 for pname in c.modifies_lists:
                     lv = env.get(pname)
                     if isinstance(lv, VList):
-                        self.havoc_list(lv, "%s.%s'" % (c.key, pname))
+                        pt = next((vt[pname] for vt in c.variants.values() if pname in vt), None)
+                        self.havoc_list(lv, "%s.%s'" % (c.key, pname), pt.elem if isinstance(pt, TList) else None)
                 if c.allocates:
                     a = self.alloc_term()
                     na = z3.Int(self.fresh_name("$alloc"))
@@ -858,6 +890,55 @@ class Interp(Engine):
             self.env0, self.heap0, self.lists0 = saved_env0, saved_heap0, saved_lists0
             self.frames.pop()
 
+    def conforms(self, v, T_):
+        """z3 condition that value v lies in the ranges declared by type T_ (None if nothing to check).
+        The union over all variants of a callee is approximated by its first variant's bounds."""
+        if isinstance(T_, TInt):
+            iv = self.as_int(self.force(v)) if not isinstance(v, VOpt) else None
+            if iv is None:
+                return None
+            cs = []
+            if T_.lo is not None:
+                cs.append(iv.t >= T_.lo)
+            if T_.hi is not None:
+                cs.append(iv.t <= T_.hi)
+            return z3.And(cs) if cs else None
+        if isinstance(T_, TTuple) and isinstance(v, VTuple) and len(v.items) == len(T_.items):
+            cs = [self.conforms(x, t) for x, t in zip(v.items, T_.items)]
+            cs = [c_ for c_ in cs if c_ is not None]
+            return z3.And(cs) if cs else None
+        if isinstance(T_, TStruct) and isinstance(v, VStruct):
+            cs = [self.conforms(v.fields[k], t) for k, t in T_.fields.items() if k in v.fields]
+            cs = [c_ for c_ in cs if c_ is not None]
+            return z3.And(cs) if cs else None
+        if isinstance(T_, TList) and isinstance(v, VList):
+            bounds = self.leaf_bounds(T_.elem)
+            if not any(b is not None and (b[0] is not None or b[1] is not None) for b in bounds):
+                return None
+            st = self._lst(v)
+            if st[0] == "conc":
+                cs = [self.conforms(x, T_.elem) for x in st[1]]
+                cs = [c_ for c_ in cs if c_ is not None]
+                return z3.And(cs) if cs else None
+            j = z3.Int(self.fresh_name("cf"))
+            cs = []
+            for a, b in zip(st[2], bounds):
+                if b is None:
+                    continue
+                if b[0] is not None:
+                    cs.append(z3.Select(a, j) >= b[0])
+                if b[1] is not None:
+                    cs.append(z3.Select(a, j) <= b[1])
+            return z3.ForAll([j], z3.Implies(z3.And(j >= 0, j < st[1]), z3.And(cs)))
+        if isinstance(T_, TOpt):
+            if isinstance(v, VNone):
+                return None
+            if isinstance(v, VOpt):
+                inner = self.conforms(v.val, T_.elem)
+                return None if inner is None else z3.Or(v.is_none, inner)
+            return self.conforms(v, T_.elem)
+        return None
+
     def eval_clause(self, text):
         tree = self.contract.parse_clause(text)
         saved = self.in_clause
@@ -868,6 +949,12 @@ class Interp(Engine):
             self.in_clause = saved
 
     def call_native(self, obj, args, kwargs, node):
+        from .spec import Uninterp
+        if isinstance(obj, Uninterp):
+            return obj.apply(self, args, kwargs)
+        ext = self.contract.externals.get(qualname_of(obj)) if not isinstance(obj, type) else None
+        if ext is not None:
+            return ext(self, args, kwargs)
         h = BUILTINS.get(obj) if is_hashable(obj) else None
         if h is not None:
             return h(self, args, kwargs)
@@ -884,6 +971,8 @@ class Interp(Engine):
                 try:
                     return self.lift(obj(*[self.lower(a) for a in args], **{k: self.lower(v) for k, v in kwargs.items()}))
                 except ValueError:
+                    if isinstance(owner, str) and getattr(obj, "__name__", "") == "format":
+                        return VStr("<formatted>")
                     raise Unsupported("native call %r with symbolic arguments" % (obj,))
         raise Unsupported("call of native %r" % (obj,))
 
@@ -1024,6 +1113,16 @@ class Interp(Engine):
             if isinstance(selfv, VInt):
                 return VInt(selfv.t)
             return VFloat(selfv.t, selfv.kind, False) if selfv.kind == "f64" else VFloat(z3.fpToFP(RNE, selfv.t, F64S), "f64", False)
+        if name == "num.bit_length":
+            if not isinstance(selfv, VInt):
+                raise PyRaise(AttributeError, "bit_length", self.cur_line)
+            x = selfv.t
+            c = conc_int(x)
+            if c is not None:
+                return VInt(c.bit_length())
+            ax = z3.If(x >= 0, x, -x)
+            self.prove(ax < (1 << 64), "model_limit", "bit_length operand below 2^64")
+            return VInt(bitlen_term(ax, 64))
         if name == "num.is_integer":
             if isinstance(selfv, VFloat):
                 return VBool(z3.fpEQ(z3.fpRoundToIntegral(RTZ, selfv.t), selfv.t))
@@ -1572,6 +1671,9 @@ def _int(self, args, kw):
         c = simp(v.t)
         if z3.is_fp_value(c):
             return VInt(int(self.lower(VFloat(c, v.kind, False))))
+        if v.q is not None:
+            n, d = v.q
+            return VInt(z3.If(n >= 0, n / d, -((-n) / d)))
         return self.float_to_int(z3.fpRoundToIntegral(RTZ, v.t), "int(float)")
     iv = self.as_int(v)
     if iv is not None:
@@ -1860,6 +1962,13 @@ BUILTINS[np.rint] = _fp_round(z3.RNE())
 def _math_round(mode):
     def f(self, args, kw):
         v = self.force(args[0])
+        if isinstance(v, VFloat) and v.q is not None and not z3.is_fp_value(simp(v.t)):
+            n, d = v.q
+            if mode is RTZ:
+                return VInt(z3.If(n >= 0, n / d, -((-n) / d)))
+            if str(mode) == str(z3.RTN()):
+                return VInt(n / d)          # floor (d > 0)
+            return VInt(-((-n) / d))        # ceil
         if isinstance(v, VFloat):
             if not self.branch(z3.Not(z3.Or(z3.fpIsNaN(v.t), z3.fpIsInf(v.t)))):
                 raise PyRaise(ValueError, "cannot convert float NaN/inf to integer", self.cur_line)
